@@ -1,7 +1,80 @@
+import AuModel.Label
+import AuModel.UnitKey
 import Driver.Util
+import Driver.Cmd.C02
+
+/-! Driver commands for C18.
+
+  label <k> (<id> own <hexlabel> | <id> none - | <id> inh <baseid>|<magpack>)×k <sexpr>
+        →  label=<hex of the label's characters> size=<declared length + 1>
+  uitoa <n>  →  <digits> size=<string_size_unsigned + 1>
+  itoa <n>   →  <digits> size=…
+-/
 open Au
 
-def dispatchC18 : List String → Option String
+def hexVal? (c : Char) : Option Nat :=
+  if '0' ≤ c && c ≤ '9' then some (c.toNat - 48)
+  else if 'a' ≤ c && c ≤ 'f' then some (c.toNat - 87) else none
+
+def unhex? : List Char → Option (List Char)
+  | [] => some []
+  | a :: b :: rest => do
+    let x ← hexVal? a
+    let y ← hexVal? b
+    let t ← unhex? rest
+    pure (Char.ofNat (16 * x + y) :: t)
   | _ => none
 
-/-! Driver commands for C18. -/
+def hexOf (cs : List Char) : String :=
+  let hd (n : Nat) : Char := if n < 10 then Char.ofNat (48 + n) else Char.ofNat (87 + n)
+  String.ofList (cs.flatMap fun c => [hd (c.toNat / 16), hd (c.toNat % 16)])
+
+def parseLabelEntries : Nat → List String → Option (List (Nat × LabelSrc) × List String)
+  | 0, rest => some ([], rest)
+  | k + 1, id :: kind :: arg :: rest => do
+    let id ← id.toNat?
+    let src ← (match kind with
+      | "own" => (unhex? arg.toList).map (fun cs => LabelSrc.own (String.ofList cs))
+      | "none" => some LabelSrc.none
+      | "inh" => match arg.splitOn "|" with
+        | [b, m] => do
+          let b ← b.toNat?
+          if m == "-" then pure (LabelSrc.inheritedFrom (.named b))
+          else do
+            let m ← parseMag? m
+            pure (LabelSrc.inheritedFrom (.scaled (.named b) m))
+        | _ => none
+      | _ => none)
+    let (tl, rest) ← parseLabelEntries k rest
+    pure ((id, src) :: tl, rest)
+  | _, _ => none
+
+def cmdLabel (args : List String) : String :=
+  match args with
+  | k :: rest =>
+    match k.toNat? with
+    | none => "bad-op"
+    | some k =>
+      match parseLabelEntries k rest with
+      | none => "bad-op"
+      | some (entries, toks) =>
+        match parseExpr toks with
+        | some (p, []) =>
+          let lenv : LabelEnv := ⟨fun n => match entries.find? (fun e => e.1 == n) with
+            | some e => e.2
+            | none => LabelSrc.none⟩
+          let u := p.expr.eval U.keyLt
+          let l := U.label lenv 8 u
+          s!"label={hexOf l.chars} size={l.declared + 1}"
+        | _ => "bad-op"
+  | _ => "bad-op"
+
+def dispatchC18 : List String → Option String
+  | "label" :: args => some (cmdLabel args)
+  | ["uitoa", n] => match n.toNat? with
+    | some n => some s!"{String.ofList (uitoa n)} size={(uitoaSC n).declared + 1}"
+    | none => some "bad-op"
+  | ["itoa", n] => match n.toInt? with
+    | some n => some s!"{String.ofList (itoa n)} size={(itoaSC n).declared + 1}"
+    | none => some "bad-op"
+  | _ => none
